@@ -33,6 +33,9 @@
   * ADX: averaged true range; directional movements against the candle `period1` steps back averaged and divided by it;
     the index is the average of |+DI − −DI|/(+DI + −DI); nothing but the true-range average moves while it is zero
     (`C05_adx_step`).
+  * TrendStrengthIndex: `p/sqrt q` with `p = (WMA − mean)·Σi`, `q = k·(Σx² − mean·Σx)` over the last `period` sources
+    (`C05_trend_strength_step`); FisherTransform: `prev/2 + atanhQ(clamped position of the source in the window's range)`
+    and the realised average of that (`C05_fisher_step`; `atanhQ` is the model's rational stand-in for atanh).
   Partial: Envelopes, TSI/SMI and the tier-2 indicators' value theorems over whole histories are not written (those
   models are validated by the correspondence run only); floats are outside.
 -/
@@ -43,6 +46,7 @@ import YataProofs.Indicators.ADX
 import YataProofs.Indicators.Keltner
 import YataProofs.Indicators.CMFRange
 import YataProofs.Indicators.MFIRange
+import YataProofs.Indicators.Irrational
 namespace Yata.C05
 open Yata Yata.Ind
 
@@ -188,6 +192,27 @@ theorem C05_adx_step {P n : Nat} {gT gP gM gA : List ℚ → ℚ} {cs : List (Ca
         ADX.Inv P n gT gP gM gA (cs ++ [k]) trs' (pdms ++ [ADX.pdm k prev]) (mdms ++ [ADX.mdm k prev]) (ts ++ [t]) s') :=
   ADX.vals_spec k h
 
+theorem C05_trend_strength_step {P : Nat} {srcs : List ℚ} {s : TSInd} (src : ℚ) (h : TSInd.Inv P srcs s) :
+    let w := lastN s.period (srcs ++ [src])
+    let sy := w.sum
+    let sy2 := (w.map fun x => x * x).sum
+    let sma := sy / (s.period : ℚ)
+    let wma := Spec.rampSum 1 w / ((s.period * (s.period + 1) / 2 : Nat) : ℚ)
+    ∃ s', s.vals src = .ok ([.sqrtQuot ((wma - sma) * s.sx) (s.k * (sy2 - sma * sy)) (2 * s.sx) (2 * s.k * (s.period : ℚ))], s') ∧
+      TSInd.Inv P (srcs ++ [src]) s' ∧ s'.sx = s.sx ∧ s'.k = s.k ∧ s'.period = s.period := TSInd.vals_spec src h
+
+theorem C05_fisher_step {P : Nat} {g : List ℚ → ℚ} {srcs cums : List ℚ} {s : Fisher} (src : ℚ) (h : Fisher.Inv P g srcs cums s) :
+    ∃ hi lo v s', s.vals src none = .ok (v, s') ∧
+      IsMaxOf hi (lastN s.period1 (srcs ++ [src])) ∧ IsMinOf lo (lastN s.period1 (srcs ++ [src])) ∧
+      (let ft := if hi = lo then 0 else atanhQ (Fisher.xOf s.bound src hi lo)
+       let cum := cums.getLastD 0 * half + ft
+       v.map VExp.value = [cum, g (cums ++ [cum])] ∧ Fisher.Inv P g (srcs ++ [src]) (cums ++ [cum]) s') :=
+  Fisher.vals_spec src h
+
+/-- the argument of the transform never leaves [−bound, bound] -/
+theorem C05_fisher_clamped (b src hi lo : ℚ) (hb : 0 ≤ b) : -b ≤ Fisher.xOf b src hi lo ∧ Fisher.xOf b src hi lo ≤ b :=
+  Fisher.xOf_range b src hi lo hb
+
 /-! non-vacuity: a reachable MACD state satisfies the invariant (both default averages are EMAs) -/
 example : ∃ m, MA.init 255 { kind := .ema, length := 12 } (100 : ℚ) = .ok m ∧
     Realises (fun h => Spec.emaRec (((2 : Nat) : ℚ) / ((12 + 1 : Nat) : ℚ)) 100 h) m [] :=
@@ -214,3 +239,6 @@ end Yata.C05
 #print axioms Yata.C05.C05_mfi_init
 #print axioms Yata.C05.C05_mfi_step
 #print axioms Yata.C05.C05_adx_step
+#print axioms Yata.C05.C05_trend_strength_step
+#print axioms Yata.C05.C05_fisher_step
+#print axioms Yata.C05.C05_fisher_clamped
